@@ -42,6 +42,19 @@ pub(crate) static ITERATIONS: AtomicU64 = AtomicU64::new(0);
 /// per-iteration operation log of the drivers (printed when an iteration fails)
 pub(crate) static OPLOG: std::sync::Mutex<Vec<String>> = std::sync::Mutex::new(Vec::new());
 
+static DEADLINE_MS: AtomicU64 = AtomicU64::new(0);
+static STARTED: std::sync::OnceLock<Instant> = std::sync::OnceLock::new();
+static INCOMPLETE: std::sync::atomic::AtomicBool = std::sync::atomic::AtomicBool::new(false);
+
+/// For sequential enumerations: the time cap given on the command line has passed.
+pub(crate) fn past_deadline() -> bool {
+    let d = DEADLINE_MS.load(Ordering::Relaxed);
+    d != 0 && STARTED.get().is_some_and(|s| s.elapsed().as_millis() as u64 >= d)
+}
+pub(crate) fn mark_incomplete() {
+    INCOMPLETE.store(true, Ordering::Relaxed);
+}
+
 pub(crate) fn oplog(s: String) {
     OPLOG.lock().unwrap().push(s);
 }
@@ -103,6 +116,8 @@ fn main() {
                 }));
             }
             let started = Instant::now();
+            let _ = STARTED.set(started);
+            DEADLINE_MS.store(max_s.map_or(0, |s| s * 1000), Ordering::Relaxed);
             let mut b = loom::model::Builder::new();
             b.preemption_bound = bound;
             b.max_branches = 20_000;
@@ -124,7 +139,7 @@ fn main() {
             }));
             let iterations = ITERATIONS.load(Ordering::Relaxed);
             let wall = started.elapsed().as_secs_f64();
-            let timed_out = max_s.is_some_and(|s| wall >= s as f64);
+            let timed_out = max_s.is_some_and(|s| wall >= s as f64) || INCOMPLETE.load(Ordering::Relaxed);
             let out = match result {
                 Ok(()) => serde_json::json!({
                     "model": id, "property": m.property, "ok": true, "iterations": iterations,
